@@ -262,7 +262,11 @@ theorem decodeSkin_error (x : SkinIn) (e : Err) (h : decodeSkin x = .error e) :
           have hw := partition_width _ _ _ _ h4
           obtain ⟨ji, hji⟩ := columns_total x.jo idx (fun g hg row hr => by rw [hw g hg row hr]; exact hjo)
           obtain ⟨wi, hwi⟩ := columns_total x.wo idx (fun g hg row hr => by rw [hw g hg row hr]; exact hwo)
-          rw [hji, hwi] at h
+          dsimp only at h
+          rw [hji] at h
+          dsimp only at h
+          rw [hwi] at h
+          dsimp only at h
           cases h7 : checkRange x.nWeightJoints x.nWeights ji wi with
           | ok u => rw [h7] at h; cases h
           | error e7 =>
@@ -473,12 +477,8 @@ example : decodeMorph ["g0", "g1"] "g0" none ["zz"] [1] = .error .brokenRef := b
 example : (decodeSkin ⟨["g0", "g1"], "g1", none, ["a"], List.replicate 16 0, 1, 2, 0, 1, [1, 0], [0, 1]⟩).toOption.map
     (fun o => (o.geom, o.index, o.jointIndex, o.weightIndex)) = some (1, [[[0, 1]], []], [[0], []], [[1], []]) := by decide
 example : decodeSkin ⟨["g0"], "zz", none, [], [], 0, 0, 0, 1, [], []⟩ = .error .brokenRef := by
-  cases h : decodeSkin ⟨["g0"], "zz", none, [], [], 0, 0, 0, 1, [], []⟩ with
-  | ok o => exact absurd (source_geometry_resolved _ o h) (by decide)
-  | error e =>
-    rcases decodeSkin_error _ e h with ⟨rfl, _⟩ | ⟨_, hin, _⟩
-    · rfl
-    · exact absurd hin (by decide)
+  have h : findGeom ["g0"] "zz" = none := by decide
+  simp [decodeSkin, h]
 -- a scene: root node A with an instance and a child node B with an instance (the free monoid of lists)
 instance : Mon (List Nat) where
   mul := (· ++ ·)
